@@ -8,9 +8,12 @@ asyncd begin <stages> <tl>          e.g. [[[0],[1,2]],[[3]]] [4,5]     -> ok
 asyncd call <op>                                                      -> ok | reject ..
 asyncd ret <op> <0|1>                                                 -> ok | reject ..
 asyncd ev <F|D> <tag> <c|w> <dispatch-no>                             -> ok | reject ..
+asyncd quiet                                                          -> ok | reject ..
 asyncd end                                                            -> accept | reject ..
 ```
-`op` ∈ dispatch wait wait_without_tl running world world_mut setup. The stages are the
+`op` ∈ dispatch wait wait_without_tl running world world_mut setup res mut_res. `quiet`: the
+harness, between two operations and without calling the dispatcher, has seen the completion
+signal of the systems themselves (every `run` that was entered has returned). The stages are the
 *model's* layout for the registration sequence (the harness obtains it with `layout`); the job
 task is `stagesTask` of it. Every request is one `Async.feed` step of the acceptor whose
 soundness is `Async.acceptsLog_sound`.
@@ -67,6 +70,8 @@ def parseOp : String → Option AOp
   | "world" => some .world
   | "world_mut" => some .worldMut
   | "setup" => some .setup
+  | "res" => some .res
+  | "mut_res" => some .mutRes
   | _ => none
 
 def showCtl (c : Ctl) : String :=
@@ -109,6 +114,7 @@ def step (st : St) (ws : List String) : St × String :=
       | some _, none => (st, s!"reject ev {k} {tag} {th} {d} [thread is neither the caller nor a pool worker]")
       | _, _ => (st, "bad-op")
     | _, _ => (st, "bad-op")
+  | ["quiet"] => feedEv st .quiet "quiet"
   | ["end"] =>
     match st.ctl with
     | some c => ({ st with ctl := none }, if c.final then "accept" else s!"reject incomplete [{showCtl c}]")
